@@ -1,15 +1,17 @@
 (* Extract/D19.v — text interpreter of the C19 model: one scenario = one case line.
 
    scn <next0> tok tok ...
-     b4.<p>.<m>.<ms> / b6.<p>.<m>.<ms>   Begin of call p (Ping / Ping6, timeout ms — real time only,
-                               ignored by the model); m = g (sent), a (address family error,
+     b4.<p>.<m>.<tmo> / b6.<p>.<m>.<tmo>   Begin of call p (Ping / Ping6 with timeout argument tmo:
+                               <ms> decimal, possibly 0 or negative, n<ns>, or huge); m = g (sent), a (address family error,
                                nothing on the wire), w (Conn.WriteTo failed)
      s                         snapshot of the table size
      q4.<p>.<ms> / q6.<p>.<ms>  call p registered its waiter and is inside its send;  z.<p>.<T|F>  that send returned
      x.<n>                     n address-error calls one after the other (compressed: BulkFail n)
      r.<hex>                   frame handed to Session.Parse
      w.<p>  t.<p>  e.<p>       wait for return / Timeout / End
-   observation:  res=<r>,..;ids=<i>,..;sz=<n>,..;next=<n>
+   observation:  res=<r>,..;ids=<i>,..;sz=<n>,..;next=<n>;early=<k>
+     early = number of calls that returned ErrTimeout before their EFFECTIVE timeout had elapsed
+             (always 0 in the model: Proofs/PingTime.v timeout_effective)
      res/ids in order of the Begin tokens; r = nil|timeout|err|run; id = '-' for mode a
      sz = waiter-table size at every snapshot token, then at the end. *)
 From PV Require Import Base.Text Model.Ping Model.PingTrace Model.PingFrame Model.PingScript Model.PingKnown.
@@ -19,6 +21,14 @@ Open Scope N_scope.
 
 Definition TAB : string := String (ascii_of_N 9) EmptyString.
 Definition out3 (m s k : string) : string := m ++ TAB ++ s ++ TAB ++ k.
+
+(* timeout field of a b/q token: <ms> (decimal, may be 0 or negative), n<ns>, or huge (2^62 ns) *)
+Definition tmo_of_tok (w : string) : option Z :=
+  if String.eqb w "huge" then Some (2 ^ 62)%Z
+  else match w with
+       | String "n"%char r => Z_of_dec r
+       | _ => option_map (fun ms => (ms * 1000000)%Z) (Z_of_dec w)
+       end.
 
 Definition parse_tok (w : string) : option tok :=
   match split "."%char w with
@@ -37,17 +47,21 @@ Definition parse_tok (w : string) : option tok :=
         | Some p, Some ok => Some (TSent p ok)
         | _, _ => None
         end
-      else if String.eqb k "q4" || String.eqb k "q6" then option_map TReg (nat_of_dec a)
+      else if String.eqb k "q4" || String.eqb k "q6" then
+        match nat_of_dec a, tmo_of_tok m with
+        | Some p, Some t => Some (TReg p t)
+        | _, _ => None
+        end
       else None
-  | [k; a; m; _] =>
+  | [k; a; m; tm] =>
       if String.eqb k "b4" || String.eqb k "b6" then
-        match nat_of_dec a with
-        | Some p =>
-            if String.eqb m "g" then Some (TBegin p true true)
-            else if String.eqb m "w" then Some (TBegin p false true)
-            else if String.eqb m "a" then Some (TBegin p false false)
+        match nat_of_dec a, tmo_of_tok tm with
+        | Some p, Some t =>
+            if String.eqb m "g" then Some (TBegin p t true true)
+            else if String.eqb m "w" then Some (TBegin p t false true)
+            else if String.eqb m "a" then Some (TBegin p t false false)
             else None
-        | None => None
+        | _, _ => None
         end
       else None
   | _ => None
@@ -80,7 +94,7 @@ Definition show_obs (s : state) (sizes : list nat) (bs : list (pid * bool)) : st
                                                end
                                  else "-") bs)
   ++ ";sz=" ++ join "," (map dec_of_nat sizes)
-  ++ ";next=" ++ dec_of_N (next s).
+  ++ ";next=" ++ dec_of_N (next s) ++ ";early=0".
 
 Definition obs_of (fix24 : bool) (n0 : N) (ts : list tok) : string :=
   match run_script fix24 parse_notify (init n0) ts with
@@ -136,7 +150,7 @@ Definition spec_obs (n0 : N) (ts : list tok) : string :=
                                                    end
                                      else "-") bs)
       ++ ";sz=" ++ join "," (map dec_of_nat (sizes ++ [entries st])%list)
-      ++ ";next=" ++ dec_of_N (next s)
+      ++ ";next=" ++ dec_of_N (next s) ++ ";early=0"
   | Err _ => "illformed"
   | Panic => "panic"
   | Fuel => "fuel"
@@ -144,7 +158,7 @@ Definition spec_obs (n0 : N) (ts : list tok) : string :=
 
 (* ---- recorded defect classes (narrow keys, see known_findings.txt) ---- *)
 Definition has_failed_begin (ts : list tok) : bool :=
-  existsb (fun t => match t with TBegin _ false _ => true | TSent _ false => true | _ => false end) ts.
+  existsb (fun t => match t with TBegin _ _ false _ => true | TSent _ false => true | _ => false end) ts.
 
 Definition res_opt_eqb (a : res (option N)) (b : option N) : bool :=
   match a, b with
